@@ -115,6 +115,20 @@ func descriptorPaths(c *Ctx) ([]string, types.Type) {
 	}
 	var paths []string
 	env := &symEnv{p: p, vars: map[types.Object]string{recv: "L"}, idx: map[types.Object]string{}}
+	// locals that are copies of parts of the receiver: start, end := diag.Position, diag.End
+	ast.Inspect(fd.Body, func(n ast.Node) bool {
+		switch n := n.(type) {
+		case *ast.AssignStmt:
+			env.bind(n.Lhs, n.Rhs)
+		case *ast.ValueSpec:
+			var lhs []ast.Expr
+			for _, nm := range n.Names {
+				lhs = append(lhs, nm)
+			}
+			env.bind(lhs, n.Values)
+		}
+		return true
+	})
 	for _, e := range lit.Elts {
 		v := e
 		if kv, ok := e.(*ast.KeyValueExpr); ok {
@@ -143,13 +157,7 @@ func runC12(c *Ctx) {
 		if chain != nil {
 			return
 		}
-		fd, p := c.Decl("lintcmd", "(*Command).printDiagnostics")
-		lit, call := findSortComparator(p, fd.Body)
-		if lit == nil {
-			c.Undecided("printDiagnostics no longer sorts with a comparator literal")
-		}
-		chainPos = call.Pos()
-		chain = comparatorChain(c, p, lit)
+		chain, chainPos = sortChainOf(c, "lintcmd", "(*Command).printDiagnostics")
 		_, elemT = descriptorPaths(c)
 		chain = expandLeaves(elemT, chain)
 	}
@@ -180,7 +188,7 @@ func runC12(c *Ctx) {
 		}
 		// the de-duplication loop merges build names exactly when descriptors are equal
 		pd := c.Func("lintcmd", "(*Command).printDiagnostics")
-		usesDesc := len(CallsTo(pd, false, lintcmdPkg+".diagnostic.descriptor")) >= 2
+		usesDesc := len(descriptorEqEdges(pd)) > 0
 		c.Check(FuncKey(pd)+"::dedupe-by-descriptor", pd.Pos(), usesDesc, "adjacent problems are merged when their descriptor() values are equal")
 	})
 
@@ -250,100 +258,182 @@ func runC12(c *Ctx) {
 				appends = append(appends, call)
 			}
 		})
-		// doPrint: a bool phi with a constant false input
-		var doPrint *ssa.Phi
-		Instrs(mr, false, func(in ssa.Instruction) {
-			if phi, ok := in.(*ssa.Phi); ok && types.Identical(phi.Type(), types.Typ[types.Bool]) {
-				for _, e := range phi.Edges {
-					if k, ok := e.(*ssa.Const); ok && k.Value != nil && k.Value.String() == "false" {
-						doPrint = phi
-					}
-				}
-			}
-		})
 		if len(appends) < 2 {
 			c.Undecided("mergeRuns no longer has one append per merge strategy")
 		}
-		printEdges := map[Edge]bool{}
-		if doPrint != nil {
-			printEdges = CondEdges(mr, func(cond ssa.Value) (bool, bool) { return cond == ssa.Value(doPrint), true })
-		}
-		nAny, nAll := 0, 0
+		// the veto flag: the condition (other than the strategy test) whose true edge every 'all' append
+		// passes — a boolean variable that is cleared in the loop over the runs, or the result of a
+		// helper of the package that contains that loop
+		var allAppends []*ssa.Call
+		nAny := 0
 		for _, a := range appends {
-			inAny, _ := MustPassEdges(mr, a, anyE)
-			inAll, _ := MustPassEdges(mr, a, allE)
-			switch {
-			case inAny:
+			if inAny, _ := MustPassEdges(mr, a, anyE); inAny {
 				nAny++
 				c.Check(FuncKey(mr)+"::any-kept", a.Pos(), true, "a problem of an 'any' check is kept whenever some run reported it")
-			case inAll:
-				nAll++
-				ok, path := MustPassEdges(mr, a, printEdges)
-				c.Check(FuncKey(mr)+"::all-kept-only-if-doPrint", a.Pos(), ok, "a problem of an 'all' check is appended only under the doPrint flag; path: %s", PathString(mr, path))
+			} else if inAll, _ := MustPassEdges(mr, a, allE); inAll {
+				allAppends = append(allAppends, a)
 			}
 		}
-		if nAny == 0 || nAll == 0 {
+		if nAny == 0 || len(allAppends) == 0 {
 			c.Undecided("could not attribute the appends of mergeRuns to the 'any' and 'all' cases")
 		}
-		// doPrint = false only when the run checked the file and lacks the descriptor
-		checked := CondEdges(mr, func(cond ssa.Value) (bool, bool) {
-			e, ok := cond.(*ssa.Extract)
-			if !ok || e.Index != 1 {
-				return false, false
+		type vetoSite struct {
+			fn *ssa.Function
+			at ssa.Instruction
+		}
+		var vetoes []vetoSite
+		var flag ssa.Value
+		loopFn := mr // the function that holds the loop over the runs
+		for _, b := range mr.Blocks {
+			iff, ok := b.Instrs[len(b.Instrs)-1].(*ssa.If)
+			if !ok {
+				continue
 			}
-			l, ok := e.Tuple.(*ssa.Lookup)
-			return ok && DerivesLocal(l.X, IsFieldOf("run", "checkedFiles")) && DerivesLocal(l.Index, IsFieldOf("token.Position", "Filename")), true
-		})
-		lacks := ComplementEdges(CondEdges(mr, func(cond ssa.Value) (bool, bool) {
-			e, ok := cond.(*ssa.Extract)
-			if !ok || e.Index != 1 {
-				return false, false
+			cond, neg := StripNot(iff.Cond)
+			if neg {
+				continue
 			}
-			l, ok := e.Tuple.(*ssa.Lookup)
-			return ok && DerivesLocal(l.X, IsFieldOf("run", "diagnostics")) && DerivesLocal(l.Index, IsCallResult(lintcmdPkg+".diagnostic.descriptor")), true
-		}))
-		if doPrint == nil {
+			edge := map[Edge]bool{{Block: b.Index, Succ: 0}: true}
+			guardsAll := true
+			for _, a := range allAppends {
+				if ok, _ := MustPassEdges(mr, a, edge); !ok {
+					guardsAll = false
+				}
+			}
+			if !guardsAll {
+				continue
+			}
+			switch x := cond.(type) {
+			case *ssa.Phi:
+				var sites []vetoSite
+				var expand func(phi *ssa.Phi, depth int)
+				seenPhi := map[*ssa.Phi]bool{}
+				expand = func(phi *ssa.Phi, depth int) {
+					if seenPhi[phi] || depth > 4 {
+						return
+					}
+					seenPhi[phi] = true
+					for i, e := range phi.Edges {
+						pred := phi.Block().Preds[i]
+						if isBoolConst(e, false) {
+							sites = append(sites, vetoSite{mr, pred.Instrs[len(pred.Instrs)-1]})
+						} else if p2, ok := e.(*ssa.Phi); ok {
+							expand(p2, depth+1)
+						}
+					}
+				}
+				expand(x, 0)
+				if len(sites) > 0 {
+					flag, vetoes = x, sites
+				}
+			case *ssa.Call:
+				h := x.Call.StaticCallee()
+				if h == nil || h.Blocks == nil || FuncPkgPath(h) != lintcmdPkg {
+					continue
+				}
+				var sites []vetoSite
+				okShape := true
+				seenP := map[*ssa.Phi]bool{}
+				var collect func(v ssa.Value, at ssa.Instruction, depth int)
+				collect = func(v ssa.Value, at ssa.Instruction, depth int) {
+					switch {
+					case isBoolConst(v, false):
+						sites = append(sites, vetoSite{h, at})
+					case isBoolConst(v, true):
+					default:
+						phi, isPhi := v.(*ssa.Phi)
+						if !isPhi || depth > 4 {
+							okShape = false
+							return
+						}
+						if seenP[phi] {
+							return
+						}
+						seenP[phi] = true
+						for i, e := range phi.Edges {
+							pred := phi.Block().Preds[i]
+							collect(e, pred.Instrs[len(pred.Instrs)-1], depth+1)
+						}
+					}
+				}
+				for _, r := range Returns(h) {
+					collect(r.Results[0], r, 0)
+				}
+				if okShape && len(sites) > 0 {
+					flag, vetoes, loopFn = x, sites, h
+				}
+			}
+		}
+		for _, a := range allAppends {
+			c.Check(FuncKey(mr)+"::all-kept-only-if-doPrint", a.Pos(), flag != nil, "a problem of an 'all' check is appended only under the veto flag (a flag that a run which checked the file but lacks the problem can clear)")
+		}
+		if flag == nil {
 			c.Check(FuncKey(mr)+"::all-veto-flag", mr.Pos(), false, "the 'all' case has no veto flag that a run lacking the descriptor can clear")
 			return
 		}
-		blk := doPrint.Block()
-		for i, e := range doPrint.Edges {
-			k, ok := e.(*ssa.Const)
-			if !ok || k.Value == nil || k.Value.String() != "false" {
-				continue
-			}
-			pred := blk.Preds[i]
-			last := pred.Instrs[len(pred.Instrs)-1]
-			ok1, p1 := MustPassEdges(mr, last, checked)
-			c.Check(FuncKey(mr)+"::veto-only-by-runs-that-checked-the-file", last.Pos(), ok1 && len(checked) > 0, "doPrint may be cleared only for a run whose checkedFiles contains the problem's file; path: %s", PathString(mr, p1))
-			ok2, p2 := MustPassEdges(mr, last, lacks)
-			c.Check(FuncKey(mr)+"::veto-only-if-descriptor-missing", last.Pos(), ok2 && len(lacks) > 0, "doPrint may be cleared only if that run lacks the problem's descriptor; path: %s", PathString(mr, p2))
+		// the flag is cleared only when the run checked the file and lacks the descriptor
+		for _, vs := range vetoes {
+			f := vs.fn
+			checked := CondEdges(f, func(cond ssa.Value) (bool, bool) {
+				e, ok := cond.(*ssa.Extract)
+				if !ok || e.Index != 1 {
+					return false, false
+				}
+				l, ok := e.Tuple.(*ssa.Lookup)
+				return ok && DerivesLocal(l.X, IsFieldOf("run", "checkedFiles")) && DerivesLocal(l.Index, IsFieldOf("token.Position", "Filename")), true
+			})
+			lacks := ComplementEdges(CondEdges(f, func(cond ssa.Value) (bool, bool) {
+				e, ok := cond.(*ssa.Extract)
+				if !ok || e.Index != 1 {
+					return false, false
+				}
+				l, ok := e.Tuple.(*ssa.Lookup)
+				return ok && DerivesLocal(l.X, IsFieldOf("run", "diagnostics")) && Derives(l.Index, IsCallResult(lintcmdPkg+".diagnostic.descriptor")), true
+			}))
+			ok1, p1 := MustPassEdges(f, vs.at, checked)
+			c.Check(FuncKey(mr)+"::veto-only-by-runs-that-checked-the-file", vs.at.Pos(), ok1 && len(checked) > 0, "the veto may be raised only for a run whose checkedFiles contains the problem's file; path: %s", PathString(f, p1))
+			ok2, p2 := MustPassEdges(f, vs.at, lacks)
+			c.Check(FuncKey(mr)+"::veto-only-if-descriptor-missing", vs.at.Pos(), ok2 && len(lacks) > 0, "the veto may be raised only if that run lacks the problem's descriptor; path: %s", PathString(f, p2))
 		}
-		// the quantification is over the whole runs parameter: the inner loop's bound is len(runs) of the parameter
+		// the quantification is over the whole runs parameter: the loop's bound is len(runs) of the parameter
+		isRunsParam := func(v ssa.Value) bool {
+			p, ok := v.(*ssa.Parameter)
+			return ok && strings.Contains(p.Type().String(), "lintcmd.run")
+		}
 		whole := false
-		Instrs(mr, false, func(in ssa.Instruction) {
+		Instrs(loopFn, false, func(in ssa.Instruction) {
 			call, ok := in.(*ssa.Call)
 			if !ok || !IsCallTo(call, "builtin.len") {
 				return
 			}
-			if _, isParam := call.Call.Args[0].(*ssa.Parameter); isParam && MustPassAny(mr, call, allE) {
+			if isRunsParam(call.Call.Args[0]) && (loopFn != mr || MustPassAny(mr, call, allE)) {
 				whole = true
 			}
 		})
+		if loopFn != mr {
+			// the helper is handed mergeRuns' own runs parameter
+			handed := false
+			for _, ci := range Calls(mr, false) {
+				if ci.Common().StaticCallee() == loopFn {
+					for _, a := range ci.Common().Args {
+						if isRunsParam(a) {
+							handed = true
+						}
+					}
+				}
+			}
+			whole = whole && handed
+		}
 		// and the looked-up run comes from indexing that parameter
 		fromParam := false
-		Instrs(mr, false, func(in ssa.Instruction) {
+		Instrs(loopFn, false, func(in ssa.Instruction) {
 			l, ok := in.(*ssa.Lookup)
 			if !ok || !DerivesLocal(l.X, IsFieldOf("run", "checkedFiles")) {
 				return
 			}
 			fromParam = DerivesLocal(l.X, func(v ssa.Value) bool {
 				ia, ok := v.(*ssa.IndexAddr)
-				if !ok {
-					return false
-				}
-				_, isParam := ia.X.(*ssa.Parameter)
-				return isParam
+				return ok && isRunsParam(ia.X)
 			})
 		})
 		c.Check(FuncKey(mr)+"::all-quantifies-over-the-whole-runs-slice", mr.Pos(), whole && fromParam, "the 'all' test must consider every run passed to mergeRuns (bound len(runs): %v, elements of runs: %v); a sub-slice makes the result depend on the order of runs", whole, fromParam)
@@ -417,19 +507,38 @@ func runC12(c *Ctx) {
 		c.Floor("R12.5", 5)
 		rf := c.Func("lintcmd", "runFromLintResult")
 		keyed, files := false, false
+		// the map that is (or becomes) run.<field>: the field itself, or a local map that is put into it
+		isRunMap := func(m ssa.Value, field string) bool {
+			if AddrFrom(m, IsFieldOf("run", field)) || DerivesLocal(m, IsFieldOf("run", field)) {
+				return true
+			}
+			for _, v := range storedToField(rf, "lintcmd.run", field) {
+				if v == m || Derives(v, func(x ssa.Value) bool { return x == m }) {
+					return true
+				}
+				for x := range BackSlice(m, SliceOpts{}) {
+					if x == v || Derives(v, func(y ssa.Value) bool { return y == x }) {
+						if _, isMk := x.(*ssa.MakeMap); isMk {
+							return true
+						}
+					}
+				}
+			}
+			return false
+		}
 		Instrs(rf, false, func(in ssa.Instruction) {
 			mu, ok := in.(*ssa.MapUpdate)
 			if !ok {
 				return
 			}
-			if AddrFrom(mu.Map, IsFieldOf("run", "diagnostics")) || DerivesLocal(mu.Map, IsFieldOf("run", "diagnostics")) {
+			if isRunMap(mu.Map, "diagnostics") {
 				if call, ok := mu.Key.(*ssa.Call); ok && IsCallTo(call, lintcmdPkg+".diagnostic.descriptor") && DerivesLocal(call.Call.Args[0], IsFieldOf("lintResult", "Diagnostics")) {
 					if DerivesLocal(mu.Value, IsFieldOf("lintResult", "Diagnostics")) {
 						keyed = true
 					}
 				}
 			}
-			if DerivesLocal(mu.Map, IsFieldOf("run", "checkedFiles")) && DerivesLocal(mu.Key, IsFieldOf("lintResult", "CheckedFiles")) {
+			if isRunMap(mu.Map, "checkedFiles") && DerivesLocal(mu.Key, IsFieldOf("lintResult", "CheckedFiles")) {
 				files = true
 			}
 		})
@@ -475,10 +584,7 @@ func runC12(c *Ctx) {
 	c.Rule("R12.6", func() {
 		c.Floor("R12.6", 2)
 		pd := c.Func("lintcmd", "(*Command).printDiagnostics")
-		isDesc := func(v ssa.Value) bool {
-			return Derives(v, IsCallResult(Module+"/lintcmd.diagnostic.descriptor"))
-		}
-		same := EqEdges(pd, func(x, y ssa.Value) bool { return isDesc(x) && isDesc(y) })
+		same := descriptorEqEdges(pd)
 		if len(same) == 0 {
 			c.Undecided("printDiagnostics no longer compares the descriptors of neighbouring problems")
 		}
@@ -564,4 +670,34 @@ func sameClosureFn(a, b ssa.Value) bool {
 
 func elemTypeOf(c *Ctx) types.Type {
 	return c.NamedType("lintcmd", "diagnostic")
+}
+
+// descriptorEqEdges returns the edges of fn on which two problems are known to
+// have equal descriptors: a.descriptor() == b.descriptor(), spelled directly
+// or through a helper of the package that returns that comparison.
+func descriptorEqEdges(fn *ssa.Function) map[Edge]bool {
+	isDesc := func(v ssa.Value) bool {
+		return Derives(v, IsCallResult(lintcmdPkg+".diagnostic.descriptor"))
+	}
+	direct := EqEdges(fn, func(x, y ssa.Value) bool { return isDesc(x) && isDesc(y) })
+	viaHelper := CondEdges(fn, func(cond ssa.Value) (bool, bool) {
+		call, ok := cond.(*ssa.Call)
+		if !ok {
+			return false, false
+		}
+		h := call.Call.StaticCallee()
+		if h == nil || h.Blocks == nil || FuncPkgPath(h) != lintcmdPkg || len(Returns(h)) != 1 {
+			return false, false
+		}
+		r := Returns(h)[0]
+		if len(r.Results) != 1 {
+			return false, false
+		}
+		bo, ok := r.Results[0].(*ssa.BinOp)
+		if !ok || (bo.Op != token.EQL && bo.Op != token.NEQ) || !isDesc(bo.X) || !isDesc(bo.Y) {
+			return false, false
+		}
+		return true, bo.Op == token.EQL
+	})
+	return UnionEdges(direct, viaHelper)
 }
